@@ -47,6 +47,7 @@ def observe(registry, marked, inc, exc, files, *, check_fns=True, check_kw=True,
         else:
             got_fns.append([e.__module__.rsplit(".", 1)[-1], e.__name__])
     return {
+        "kind": "build",
         "marked": [{"m": m, "fs": fs} for m, fs in sorted(marked.items())],
         "incNone": inc is None, "inc": list(inc or []), "excNone": exc is None, "exc": list(exc or []),
         "files": files, "gotFns": got_fns, "gotKw": got_kw, "checkFns": check_fns, "checkKw": check_kw,
@@ -136,6 +137,53 @@ def run(prop: str, tier: str) -> int:
         if i % 5 == 0:
             reg, failed = attempt(build_registry, d)
             recs.append(dict(observe(reg, marked, None, None, files, failed=failed), origin="build_registry(dir)"))
+    # behavioural probes: an input that only one shipped decoder reacts to, through the default scanner
+    from .props_net import mini_pe
+
+    arr = b",".join(b"%d" % (i % 251) for i in range(505))
+    probes = {
+        "find_atob": (b"x = atob('aGVsbG8gd29ybGQ=')", "javascript.string", "encoding.base64"),
+        "find_base64": (b"x = aGVsbG8gd29ybGQsIGhlbGxvIHdvcmxkIQ== ;", "", "encoding.base64"),
+        "find_Base64Decode": (b'Base64Decode("aGVsbG8gd29ybGQ=")', "vba.string", "encoding.base64"),
+        "find_FromBase64String": (b"FromBase64String('aGVsbG8gd29ybGQ=')", "powershell.bytes", "encoding.base64"),
+        "find_chr": (b"x = chr(65)", "string", "function.chr"),
+        "find_utf16": (b"h\0e\0l\0l\0o\0 \0w\0o\0r\0l\0d\0", "", "codec.uft-16"),
+        "find_concat": (b'x = "he" + "llo"', "string", "concatenation"),
+        "find_executable_name": (b"run evil.exe now", "executable.filename", ""),
+        "find_library": (b"load mylib.dll now", "executable.filename", ""),
+        "find_hex": (b"x = 68656c6c6f20776f726c6468656c6c6f ;", "", "decoded.hexadecimal"),
+        "find_FromHexString": (b"FromHexString('68656c6c6f20776f726c6468656c6c6f')", "powershell.bytes", "encoding.hexidecimal"),
+        "find_unescape": (b"unescape('%68%65%6c%6c%6f')", "string", "function.unescape"),
+        "find_domains": (b"see evil-site.net today", "network.domain", ""),
+        "find_emails": (b"mail admin@example.org today", "network.email", ""),
+        "find_ips": (b"host 10.20.30.40 up", "network.ip", ""),
+        "find_urls": (b"get http://evil-site.net/a now", "network.url", ""),
+        "find_path": (b"see /usr/local/bin/tool now", "path", ""),
+        "find_windows_path": (b"see C:\\Users\\Public\\file.txt now", "windows.path", ""),
+        "find_pe_files": (b"junk " + mini_pe(1, 0, rng), "pe_file", ""),
+        "find_powershell_bytes": (b"$b = " + arr + b" ;", "powershell.bytes", ""),
+        "find_replace": (b'"hexllo".replace("x","")', "string", "replace"),
+        "find_powershell_replace": (b"'hexllo' -replace 'x',''", "powershell.string", "replace"),
+        "find_vba_replace": (b'Replace("hexllo", "x", "")', "vba.string", "vba.replace"),
+        "find_js_regex_replace": (b'"hexllo".replace(/x/g,"")', "javascript.string", "replace"),
+        "find_reverse": (b"reverse('olleh')", "string", "reverse"),
+        "find_strreverse": (b'StrReverse("olleh")', "vba.string", "vba.reverse"),
+        "find_cmd_strings": (b"cmd /c dir", "shell.cmd", ""),
+        "find_powershell_strings": (b"powershell -c whoami", "shell.powershell", ""),
+        "find_createobject": (b"CreateObject('WScript.Shell')", "vba.function.createobject", ""),
+        "find_xml_hex": (b"&#104;&#101;&#108;&#108;&#111;", "", "unescape.xml"),
+    }
+    kwfile = sorted(shipped_files, key=lambda x: (x["dir"], x["name"]))[0]        # one shipped keyword list, its first listed word
+    word = [w for w in bytes(kwfile["raw"]).splitlines() if w][0]
+    probes["keywords:" + kwfile["name"]] = (b"call " + word + b" now", kwfile["name"], "")
+    if md is not None:
+        for name, (data, ty, obf) in sorted(probes.items()):
+            try:
+                nodes = [[nd.type, nd.obfuscation] for nd in md.scan(data)]
+            except Exception:  # noqa: BLE001  (C01's business)
+                nodes = []
+            recs.append({"kind": "probe", "probe": name, "want": [ty, obf], "nodes": nodes, "origin": "probe " + name, "inc": [], "exc": [],
+                         "incNone": True, "excNone": True, "failed": [], "files": [], "gotKw": [], "gotFns": []})
     with open(path, "w") as f:
         for r_ in recs:
             f.write(json.dumps(r_) + "\n")
